@@ -44,7 +44,8 @@ def required(tier):
     from vlib.gridwork import KINDS
     cl = [f'geom:{k}' for k in KINDS] + ['axes:alt+time', 'axes:', 'res:fine', 'res:medium',
                                          'res:coarse', 'segment:zero-length',
-                                         'segment:antimeridian', 'segment:many-crossings']
+                                         'segment:antimeridian', 'segment:many-crossings',
+                                         'integrated:integer-typed']
     return {'classes': cl, 'evaluations': 1500}
 
 
@@ -115,6 +116,8 @@ def judge(c, rec, Mismatch):
             raise Mismatch('gridded total differs from the trajectory total',
                            {'variable': q, 'total_in': total_in[q], 'total_out': total_out[q],
                             **c.desc})
+    if c.int_integ:
+        rec.cls('integrated:integer-typed')
     rec.cls(f'geom:{c.kind}', f'res:{c.grid["bucket"]}', f'axes:{c.desc["axes"]}',
             f'combo:{c.kind}:{c.grid["bucket"]}:{c.desc["axes"]}')
 
